@@ -404,6 +404,197 @@ theorem linear_in_weights_estimate (m : CostModel α) (hs : m.agg = .sum) (w1 w2
     fun i hi => getD_zipWith_linear w1 w2 a b i (r1 i hi).2.2.2 (r2 i hi).2.2.2
   rw [← h1, ← h2, sum_terms_linear m.indices _ _ _ _ a b hw]
 
+/-! ### 6. Zero-weight features are ignored -/
+
+/-- C07: a feature whose weight is zero is ignored — neither its state variables nor its vehicle and
+network rates influence any of the three results (`m'`, `prev'`, `next'` differ from `m`, `prev`,
+`next` only at zero-weight features).  This holds for both aggregations; under sum aggregation the
+feature can moreover be dropped altogether (`zero_weight_removable`), under mul aggregation it
+annihilates the product instead (`mul_zero_weight_floor`). -/
+theorem zero_weight_ignored (m m' : CostModel α)
+    (hagg : m'.agg = m.agg) (hidx : m'.indices = m.indices) (hw : m'.weights = m.weights)
+    (hvl : m'.vehicleRates.length = m.vehicleRates.length)
+    (hnl : m'.networkRates.length = m.networkRates.length)
+    (prev next prev' next' : List α) (hp : prev'.length = prev.length) (hn : next'.length = next.length)
+    (h : ∀ i ∈ m.indices, m.wt i = 0 ∨
+      (m'.vr i = m.vr i ∧ m'.nr i = m.nr i ∧ prev'.getD i 0 = prev.getD i 0 ∧ next'.getD i 0 = next.getD i 0))
+    (e pe ne : Nat) :
+    m'.traversalCost e prev' next' = m.traversalCost e prev next
+      ∧ m'.accessCost pe ne prev' next' = m.accessCost pe ne prev next
+      ∧ m'.costEstimate prev' next' = m.costEstimate prev next := by
+  have hwt : ∀ i, m'.wt i = m.wt i := fun i => by unfold CostModel.wt; rw [hw]
+  have hV : m'.InRangeV prev' next' ↔ m.InRangeV prev next := by
+    unfold CostModel.InRangeV; rw [hidx, hp, hn, hvl, hw]
+  have hR : m'.InRange prev' next' ↔ m.InRange prev next := by
+    unfold CostModel.InRange; rw [hidx, hp, hn, hvl, hw, hnl]
+  have hvt : m'.vehicleTerms prev' next' = m.vehicleTerms prev next := by
+    unfold CostModel.vehicleTerms; rw [hidx]
+    apply List.map_congr_left
+    intro i hi
+    rcases h i hi with h0 | ⟨h1, _, h3, h4⟩
+    · rw [hwt, h0]; simp
+    · rw [hwt, h1]; unfold stateDelta; rw [h3, h4]
+  have htt : m'.traversalTerms e = m.traversalTerms e := by
+    unfold CostModel.traversalTerms; rw [hidx]
+    apply List.map_congr_left
+    intro i hi
+    rcases h i hi with h0 | ⟨_, h2, _, _⟩
+    · rw [hwt, h0]; simp
+    · rw [hwt, h2]
+  have hat : m'.accessTerms pe ne = m.accessTerms pe ne := by
+    unfold CostModel.accessTerms; rw [hidx]
+    apply List.map_congr_left
+    intro i hi
+    rcases h i hi with h0 | ⟨_, h2, _, _⟩
+    · rw [hwt, h0]; simp
+    · rw [hwt, h2]
+  have hveh : m'.vehicleCosts prev' next' = m.vehicleCosts prev next := by
+    by_cases hr : m.InRangeV prev next
+    · rw [m.vehicleCosts_eq prev next hr, m'.vehicleCosts_eq prev' next' (hV.mpr hr), hvt, hagg]
+    · have n1 : m.vehicleCosts prev next = none := by
+        rw [← Option.not_isSome_iff_eq_none, m.vehicleCosts_isSome_iff]; exact hr
+      have n2 : m'.vehicleCosts prev' next' = none := by
+        rw [← Option.not_isSome_iff_eq_none, m'.vehicleCosts_isSome_iff, hV]; exact hr
+      rw [n1, n2]
+  have htot : m'.traversalTotal e prev' next' = m.traversalTotal e prev next := by
+    by_cases hr : m.InRange prev next
+    · rw [m.traversalTotal_eq e prev next hr, m'.traversalTotal_eq e prev' next' (hR.mpr hr), hvt, htt, hagg]
+    · have n1 : m.traversalTotal e prev next = none := by
+        rw [← Option.not_isSome_iff_eq_none, m.traversalTotal_isSome_iff]; exact hr
+      have n2 : m'.traversalTotal e prev' next' = none := by
+        rw [← Option.not_isSome_iff_eq_none, m'.traversalTotal_isSome_iff, hR]; exact hr
+      rw [n1, n2]
+  have hacc : m'.accessTotal pe ne prev' next' = m.accessTotal pe ne prev next := by
+    by_cases hr : m.InRangeV prev next
+    · rw [m.accessTotal_eq pe ne prev next hr, m'.accessTotal_eq pe ne prev' next' (hV.mpr hr), hvt, hat, hagg]
+    · have n1 : m.accessTotal pe ne prev next = none := by
+        rw [← Option.not_isSome_iff_eq_none, m.accessTotal_isSome_iff]; exact hr
+      have n2 : m'.accessTotal pe ne prev' next' = none := by
+        rw [← Option.not_isSome_iff_eq_none, m'.accessTotal_isSome_iff, hV]; exact hr
+      rw [n1, n2]
+  refine ⟨?_, ?_, ?_⟩
+  · unfold CostModel.traversalCost; rw [htot]
+  · unfold CostModel.accessCost; rw [hacc]
+  · unfold CostModel.costEstimate; rw [hveh]
+
+/-- C07 (sum aggregation): a zero-weight feature can be removed from the model without changing any
+result (when the results exist) -/
+theorem zero_weight_removable (m : CostModel α) (hs : m.agg = .sum) (k : Nat) (hk : m.wt k = 0)
+    (prev next : List α) (hr : m.InRange prev next) (e pe ne : Nat) :
+    let m' : CostModel α := { m with indices := m.indices.filter (fun j => j != k) }
+    m'.traversalCost e prev next = m.traversalCost e prev next
+      ∧ m'.accessCost pe ne prev next = m.accessCost pe ne prev next
+      ∧ m'.costEstimate prev next = m.costEstimate prev next := by
+  intro m'
+  have hr' : m'.InRange prev next := fun i hi => hr i (List.mem_of_mem_filter hi)
+  have key : ∀ f : Nat → α, f k = 0 →
+      ((m.indices.filter (fun j => j != k)).map f).sum = (m.indices.map f).sum := by
+    intro f hf
+    induction m.indices with
+    | nil => simp
+    | cons j l ih =>
+      rw [List.filter_cons]
+      split
+      · simp only [List.map_cons, List.sum_cons, ih]
+      · rename_i hj
+        have : j = k := by simpa using hj
+        simp only [List.map_cons, List.sum_cons, ih, this, hf, zero_add]
+  have hvt : (m'.vehicleTerms prev next).sum = (m.vehicleTerms prev next).sum :=
+    key (fun i => (m.vr i).mapValue (stateDelta prev next i) * m.wt i) (by simp [hk])
+  have htt : (m'.traversalTerms e).sum = (m.traversalTerms e).sum :=
+    key (fun i => (m.nr i).traversalCost e * m.wt i) (by simp [hk])
+  have hat : (m'.accessTerms pe ne).sum = (m.accessTerms pe ne).sum :=
+    key (fun i => (m.nr i).accessCost pe ne * m.wt i) (by simp [hk])
+  refine ⟨?_, ?_, ?_⟩
+  · unfold CostModel.traversalCost
+    rw [m.traversalTotal_eq e prev next hr, m'.traversalTotal_eq e prev next hr', hs, agg_sum, agg_sum,
+      agg_sum, agg_sum, hvt, htt]
+  · unfold CostModel.accessCost
+    rw [m.accessTotal_eq pe ne prev next hr.toV, m'.accessTotal_eq pe ne prev next hr'.toV, hs, agg_sum,
+      agg_sum, agg_sum, agg_sum, hvt, hat]
+  · unfold CostModel.costEstimate
+    rw [m.vehicleCosts_eq prev next hr.toV, m'.vehicleCosts_eq prev next hr'.toV, hs, agg_sum, agg_sum, hvt]
+
+/-! ### 7. Multiplication aggregation, exactly as the code behaves -/
+
+/-- under mul aggregation each part is the product of the per-feature costs — `0` for an empty
+feature list — and the two parts are *added*; the total is then floored like any other -/
+theorem mul_formula_traversal (m : CostModel α) (hm : m.agg = .mul) (e : Nat) (prev next : List α) (s : α)
+    (h : m.traversalTotal e prev next = some s) :
+    s = (if m.indices = [] then 0
+          else (m.indices.map fun i => (m.vr i).mapValue (stateDelta prev next i) * m.wt i).prod)
+      + (if m.indices = [] then 0 else (m.indices.map fun i => (m.nr i).traversalCost e * m.wt i).prod) := by
+  have hr : m.InRange prev next := (m.traversalTotal_isSome_iff e prev next).mp (by simp [h])
+  rw [m.traversalTotal_eq e prev next hr, hm, agg_mul, agg_mul] at h
+  simp only [Option.some.injEq] at h
+  rw [← h]
+  unfold CostModel.vehicleTerms CostModel.traversalTerms
+  simp only [List.map_eq_nil_iff]
+
+/-- the same for the access value -/
+theorem mul_formula_access (m : CostModel α) (hm : m.agg = .mul) (pe ne : Nat) (prev next : List α) (s : α)
+    (h : m.accessTotal pe ne prev next = some s) :
+    s = (if m.indices = [] then 0
+          else (m.indices.map fun i => (m.vr i).mapValue (stateDelta prev next i) * m.wt i).prod)
+      + (if m.indices = [] then 0 else (m.indices.map fun i => (m.nr i).accessCost pe ne * m.wt i).prod) := by
+  have hr : m.InRangeV prev next := (m.accessTotal_isSome_iff pe ne prev next).mp (by simp [h])
+  rw [m.accessTotal_eq pe ne prev next hr, hm, agg_mul, agg_mul] at h
+  simp only [Option.some.injEq] at h
+  rw [← h]
+  unfold CostModel.vehicleTerms CostModel.accessTerms
+  simp only [List.map_eq_nil_iff]
+
+/-- the same for the (pre-clip) estimate -/
+theorem mul_formula_estimate (m : CostModel α) (hm : m.agg = .mul) (src dst : List α) (v : α)
+    (h : m.vehicleCosts src dst = some v) :
+    v = (if m.indices = [] then 0
+          else (m.indices.map fun i => (m.vr i).mapValue (stateDelta src dst i) * m.wt i).prod) := by
+  have hr : m.InRangeV src dst := (m.vehicleCosts_isSome_iff src dst).mp (by simp [h])
+  rw [m.vehicleCosts_eq src dst hr, hm, agg_mul] at h
+  simp only [Option.some.injEq] at h
+  rw [← h]
+  unfold CostModel.vehicleTerms
+  simp only [List.map_eq_nil_iff]
+
+/-- C07 (mul aggregation): the charged cost is still strictly positive: the product formula when that
+is positive, the floor otherwise -/
+theorem mul_aggregation_pos (m : CostModel α) (hm : m.agg = .mul) (e : Nat) (prev next : List α) (c : α)
+    (h : m.traversalCost e prev next = some c) :
+    let s := (if m.indices = [] then 0
+          else (m.indices.map fun i => (m.vr i).mapValue (stateDelta prev next i) * m.wt i).prod)
+      + (if m.indices = [] then 0 else (m.indices.map fun i => (m.nr i).traversalCost e * m.wt i).prod)
+    0 < c ∧ (0 < s → c = s) ∧ (s ≤ 0 → c = minCost) := by
+  intro s
+  refine ⟨traversal_cost_pos m e prev next c h, ?_⟩
+  cases ht : m.traversalTotal e prev next with
+  | none => rw [traversal_cost_eq, ht] at h; simp at h
+  | some t =>
+    have : t = s := mul_formula_traversal m hm e prev next t ht
+    rw [← this]
+    exact traversal_cost_ge m e prev next t c ht h
+
+/-- under mul aggregation a zero-weight feature is *not* ignored: it annihilates both products, so the
+floor is charged and the estimate is zero -/
+theorem mul_zero_weight_floor (m : CostModel α) (hm : m.agg = .mul) (k : Nat) (hk : k ∈ m.indices)
+    (h0 : m.wt k = 0) (e pe ne : Nat) (prev next : List α) (hr : m.InRange prev next) :
+    m.traversalCost e prev next = some minCost ∧ m.accessCost pe ne prev next = some minCost
+      ∧ m.costEstimate prev next = some 0 := by
+  have hne : m.indices ≠ [] := List.ne_nil_of_mem hk
+  have z : ∀ f : Nat → α, (m.indices.map fun i => f i * m.wt i).prod = 0 := by
+    intro f
+    apply list_prod_eq_zero
+    exact List.mem_map.mpr ⟨k, hk, by simp [h0]⟩
+  have hv : m.agg.agg (m.vehicleTerms prev next) = 0 := by
+    rw [hm, agg_mul]; unfold CostModel.vehicleTerms; simp [hne, z]
+  have ht : m.agg.agg (m.traversalTerms e) = 0 := by
+    rw [hm, agg_mul]; unfold CostModel.traversalTerms; simp [hne, z]
+  have ha : m.agg.agg (m.accessTerms pe ne) = 0 := by
+    rw [hm, agg_mul]; unfold CostModel.accessTerms; simp [hne, z]
+  refine ⟨?_, ?_, ?_⟩
+  · rw [traversal_cost_eq, m.traversalTotal_eq e prev next hr, hv, ht]; simp
+  · rw [access_cost_eq, m.accessTotal_eq pe ne prev next hr.toV, hv, ha]; simp
+  · rw [cost_estimate_eq, m.vehicleCosts_eq prev next hr.toV, hv]; simp
+
 end
 
 end C07
